@@ -158,6 +158,7 @@ func zzLayout(splits [][]byte) *zzPD {
 // expiry is the logical counter itself (ttl arithmetic is not the subject here).
 type zzOracle struct {
 	oracle.Oracle
+	sched   *zzSched
 	mu      sync.Mutex
 	last    uint64
 	step    uint64
@@ -178,6 +179,9 @@ type zzFuture struct {
 func (f zzFuture) Wait() (uint64, error) { return f.ts, f.err }
 
 func (o *zzOracle) GetTimestamp(ctx context.Context, op *oracle.Option) (uint64, error) {
+	if o.sched != nil {
+		o.sched.point(-1, "tso")
+	}
 	o.mu.Lock()
 	defer o.mu.Unlock()
 	if o.fail {
@@ -253,6 +257,7 @@ type zzRPC struct {
 	applied   bool // the store executed it
 	answered  bool // the client saw the store's answer (not a transport error)
 	event     int
+	client    int
 	regionID  uint64
 	keys      [][]byte
 	isPrimary bool
@@ -303,6 +308,15 @@ type zzCluster struct {
 	// either never delivered or delivered but never answered; afterwards none of its requests
 	// reaches the store. Requests of peer clients are not affected and not counted.
 	peerRPCs       int
+	peers          int
+	holdSecondaryChecks bool // the order in which concurrent CheckSecondaryLocks requests arrive is a choice
+	// faithful (C01): conflict checks of a store that serves several transactions at once -
+	// write-conflict and key-exists checks at prewrite, pessimistic lock conflicts and real values,
+	// pessimistic-lock-not-found; off for the single-transaction harnesses, whose scripts choose
+	// such outcomes themselves.
+	faithful bool
+	// sched (C01): every request of every client and every timestamp fetch waits for its turn
+	sched *zzSched
 	crashArmed     bool
 	crashAt        int
 	crashDelivered bool
@@ -406,7 +420,7 @@ func (c *zzCluster) prewrite(r *kvrpcpb.PrewriteRequest) *kvrpcpb.PrewriteRespon
 	resp := &kvrpcpb.PrewriteResponse{}
 	start := r.StartVersion
 	// validate first (all-or-nothing per request, like one raft command)
-	for _, m := range r.Mutations {
+	for i, m := range r.Mutations {
 		ks := c.key(m.Key)
 		if w := ks.record(start); w != nil {
 			if w.commitTS == 0 {
@@ -418,6 +432,11 @@ func (c *zzCluster) prewrite(r *kvrpcpb.PrewriteRequest) *kvrpcpb.PrewriteRespon
 		if ks.lock != nil && ks.lock.startTS != start {
 			resp.Errors = append(resp.Errors, zzKeyErrLocked(ks))
 			continue
+		}
+		if c.faithful {
+			if e := c.prewriteConflict(r, i, m, ks); e != nil {
+				resp.Errors = append(resp.Errors, e)
+			}
 		}
 	}
 	if len(resp.Errors) > 0 {
@@ -473,6 +492,66 @@ func (c *zzCluster) prewrite(r *kvrpcpb.PrewriteRequest) *kvrpcpb.PrewriteRespon
 	return resp
 }
 
+// newest: the newest committed data record (put or delete; lock and rollback records skipped).
+func (ks *zzKeyState) newest() *zzWrite {
+	var best *zzWrite
+	for i := range ks.writes {
+		w := &ks.writes[i]
+		if w.commitTS == 0 || w.op == kvrpcpb.Op_Lock {
+			continue
+		}
+		if best == nil || w.commitTS > best.commitTS {
+			best = w
+		}
+	}
+	return best
+}
+
+// newestCommitTS: the largest commit ts of any committed record of the key (TiKV's write-conflict
+// check looks at every record kind except rollbacks).
+func (ks *zzKeyState) newestCommitTS() uint64 {
+	var ts uint64
+	for i := range ks.writes {
+		if ks.writes[i].commitTS > ts {
+			ts = ks.writes[i].commitTS
+		}
+	}
+	return ts
+}
+
+// prewriteConflict: TiKV's checks for one mutation of a prewrite request (faithful mode).
+func (c *zzCluster) prewriteConflict(r *kvrpcpb.PrewriteRequest, i int, m *kvrpcpb.Mutation, ks *zzKeyState) *kvrpcpb.KeyError {
+	start := r.StartVersion
+	action := kvrpcpb.PrewriteRequest_SKIP_PESSIMISTIC_CHECK
+	if i < len(r.PessimisticActions) {
+		action = r.PessimisticActions[i]
+	}
+	if action == kvrpcpb.PrewriteRequest_DO_PESSIMISTIC_CHECK {
+		// the key must carry this transaction's pessimistic lock (or already its prewrite lock)
+		if ks.lock == nil || ks.lock.startTS != start {
+			return &kvrpcpb.KeyError{Abort: "pessimistic lock not found"}
+		}
+		return nil
+	}
+	if ks.lock != nil && ks.lock.startTS == start && ks.lock.op != kvrpcpb.Op_PessimisticLock {
+		return nil // a repeated prewrite
+	}
+	// optimistic transactions (and keys whose constraint check was deferred to prewrite) fail on a
+	// newer version; keys a pessimistic transaction did not lock are written without that check
+	if r.ForUpdateTs == 0 || action == kvrpcpb.PrewriteRequest_DO_CONSTRAINT_CHECK {
+		if ts := ks.newestCommitTS(); ts > start {
+			return &kvrpcpb.KeyError{Conflict: &kvrpcpb.WriteConflict{StartTs: start, ConflictTs: ts, ConflictCommitTs: ts, Key: m.Key,
+				Primary: r.PrimaryLock, Reason: kvrpcpb.WriteConflict_Optimistic}}
+		}
+	}
+	if m.Op == kvrpcpb.Op_Insert || m.Op == kvrpcpb.Op_CheckNotExists {
+		if w := ks.newest(); w != nil && w.op != kvrpcpb.Op_Del {
+			return &kvrpcpb.KeyError{AlreadyExist: &kvrpcpb.AlreadyExist{Key: m.Key}}
+		}
+	}
+	return nil
+}
+
 // pessimistic lock outcomes chosen by the script
 const (
 	zzLockOK = iota
@@ -511,6 +590,30 @@ func (c *zzCluster) pessimisticLock(r *kvrpcpb.PessimisticLockRequest) *kvrpcpb.
 	case zzLockDeadlock:
 		keyErr = &kvrpcpb.KeyError{Deadlock: &kvrpcpb.Deadlock{LockTs: r.StartVersion + 1, LockKey: k0, DeadlockKeyHash: 12345}}
 	}
+	if c.faithful && keyErr == nil {
+		for _, m := range r.Mutations {
+			ks := c.key(m.Key)
+			if ks.lock != nil && ks.lock.startTS != r.StartVersion {
+				keyErr = zzKeyErrLocked(ks)
+				break
+			}
+			if ks.record(r.StartVersion) != nil && ks.record(r.StartVersion).commitTS == 0 {
+				keyErr = &kvrpcpb.KeyError{Abort: "pessimistic lock after rollback"}
+				break
+			}
+			if ts := ks.newestCommitTS(); ts > r.ForUpdateTs {
+				keyErr = &kvrpcpb.KeyError{Conflict: &kvrpcpb.WriteConflict{StartTs: r.StartVersion, ConflictTs: ts, ConflictCommitTs: ts,
+					Key: m.Key, Primary: r.PrimaryLock, Reason: kvrpcpb.WriteConflict_PessimisticRetry}}
+				break
+			}
+			if m.Assertion == kvrpcpb.Assertion_NotExist {
+				if w := ks.newest(); w != nil && w.op != kvrpcpb.Op_Del {
+					keyErr = &kvrpcpb.KeyError{AlreadyExist: &kvrpcpb.AlreadyExist{Key: m.Key}}
+					break
+				}
+			}
+		}
+	}
 	if keyErr != nil {
 		resp.Errors = []*kvrpcpb.KeyError{keyErr}
 		if force {
@@ -546,7 +649,19 @@ func (c *zzCluster) pessimisticLock(r *kvrpcpb.PessimisticLockRequest) *kvrpcpb.
 		return resp
 	}
 	if r.ReturnValues || r.CheckExistence {
-		for range r.Mutations {
+		for _, m := range r.Mutations {
+			if c.faithful {
+				// the newest committed value (nothing newer than for_update_ts exists, checked above)
+				w := c.key(m.Key).newest()
+				if w != nil && w.op != kvrpcpb.Op_Del {
+					resp.Values = append(resp.Values, w.value)
+					resp.NotFounds = append(resp.NotFounds, false)
+				} else {
+					resp.Values = append(resp.Values, nil)
+					resp.NotFounds = append(resp.NotFounds, true)
+				}
+				continue
+			}
 			resp.Values = append(resp.Values, []byte("old"))
 			resp.NotFounds = append(resp.NotFounds, false)
 		}
@@ -766,6 +881,7 @@ func (c *zzCluster) foreignResolve(primary []byte, startTS uint64) {
 
 type zzClient struct {
 	cl   *zzCluster
+	id   int // which client process (0 = the first store, 1.. = peers)
 	peer bool // another client of the same cluster (recovery side of a crash scenario): no faults, no crash
 }
 
@@ -781,9 +897,21 @@ var zzErrTransport = errors.New("zz: transport error")
 
 func (c *zzClient) SendRequest(ctx context.Context, addr string, req *tikvrpc.Request, timeout time.Duration) (*tikvrpc.Response, error) {
 	cl := c.cl
+	if cl.sched != nil {
+		cl.sched.point(c.id, req.Type.String())
+	}
+	if cl.holdSecondaryChecks && req.Type == tikvrpc.CmdCheckSecondaryLocks && len(req.CheckSecondaryLocks().Keys) > 0 &&
+		zzChoice("hold.check-secondaries."+string(req.CheckSecondaryLocks().Keys[0]), 2) == 1 {
+		// a resolver asks the regions of the secondaries concurrently: this request arrives after the others
+		if zzInterp() {
+			zzYield()
+		} else {
+			time.Sleep(50 * time.Millisecond)
+		}
+	}
 	cl.mu.Lock()
 	defer cl.mu.Unlock()
-	rpc := zzRPC{cmd: req.Type, req: req, regionID: req.Context.GetRegionId()}
+	rpc := zzRPC{cmd: req.Type, req: req, regionID: req.Context.GetRegionId(), client: c.id}
 	ev := zzEvOK
 	dying := false
 	if c.peer {
@@ -1161,7 +1289,8 @@ func zzNewStoreTS(splits [][]byte, faults int, symbolicTS bool) (*zzStore, *zzCl
 func zzNewPeer(s *zzStore) *zzStore {
 	p := &zzStore{ctx: context.Background(), pd: s.pd, orc: s.orc}
 	p.cache = locate.NewRegionCache(s.pd)
-	p.cli = &zzClient{cl: s.cli.cl, peer: true}
+	s.cli.cl.peers++
+	p.cli = &zzClient{cl: s.cli.cl, peer: true, id: s.cli.cl.peers}
 	p.resolver = txnlock.NewLockResolver(p)
 	return p
 }
@@ -1180,4 +1309,58 @@ func zzBegin(s *zzStore) *KVTxn {
 		panic(err)
 	}
 	return txn
+}
+
+// ---- scheduler over requests (C01) --------------------------------------------------------
+//
+// Every request of every client and every timestamp fetch is a scheduling point: the goroutine
+// parks on a ticket and the harness' main goroutine decides whose turn it is (a forked choice), so
+// that the engine explores every interleaving of the transactions at request granularity.
+// Engine-only: between two decisions all other goroutines run until they block (zzRunAll).
+
+type zzTicket struct {
+	client int
+	what   string
+	ch     chan struct{}
+}
+
+type zzSched struct {
+	pending []*zzTicket
+	steps   int // number of tickets granted so far (the harness' real-time axis)
+}
+
+func (g *zzSched) point(client int, what string) {
+	t := &zzTicket{client: client, what: what, ch: make(chan struct{}, 1)}
+	g.pending = append(g.pending, t)
+	<-t.ch
+}
+
+// run grants tickets until no goroutine is waiting for one and done() holds; sleepers (back-off)
+// are woken only when nobody else can move. Returns false if the run did not come to an end
+// within the bounds (the caller cuts the path).
+func (g *zzSched) run(done func() bool, maxSteps int) bool {
+	idle := 0
+	for {
+		zzRunAll()
+		if len(g.pending) == 0 {
+			if done() {
+				return true
+			}
+			idle++
+			if idle > 40 {
+				return false
+			}
+			zzAdvance(int64(500 * time.Millisecond))
+			continue
+		}
+		idle = 0
+		if g.steps >= maxSteps {
+			return false
+		}
+		k := zzChoice("sched", len(g.pending))
+		t := g.pending[k]
+		g.pending = append(g.pending[:k:k], g.pending[k+1:]...)
+		g.steps++
+		t.ch <- struct{}{}
+	}
 }
